@@ -7,6 +7,7 @@ pub open spec fn cow_str(c: Cow<'_, Str>) -> Seq<u8> { match c { Cow::Borrowed(s
 pub open spec fn cow_bytes(c: Cow<'_, [u8]>) -> Seq<u8> { match c { Cow::Borrowed(s) => s@, Cow::Owned(s) => s@ } }
 impl<'a> Cow<'a, Str> {
     #[verifier::external_body] pub fn as_ref(&self) -> (r: &Str) ensures r@ == cow_str(*self) { unimplemented!() }
+    #[verifier::external_body] pub fn to_string(&self) -> (r: Str) ensures r@ == cow_str(*self) { unimplemented!() }
 }
 impl<'a> Cow<'a, [u8]> {
     #[verifier::external_body] pub fn as_ref(&self) -> (r: &[u8]) ensures r@ == cow_bytes(*self) { unimplemented!() }
